@@ -343,7 +343,8 @@ def check_closers(ctx, lib):
             # Lparen arm
             arm = only_via(b, (blk0, ve0["edges"].get("Lparen", -1))) if "Lparen" in ve0["edges"] else set()
             inner = [(blk, ve) for blk, ve in sws if blk in arm]
-            oks = [(bb, s) for bb, _, s in region_aggs(b, arm, "std::result::Result") if s["rv"]["variant"] == "Ok"]
+            # the arm's own results (an inlined helper's `Ok(())` is not one)
+            oks = [(bb, s) for bb, _, s in region_aggs(b, arm, "std::result::Result") if s["rv"]["variant"] == "Ok" and "ast::Ast" in str(s["place"].get("ty", "ast::Ast"))]
             ok = len(inner) == 1 and len(oks) == 1
             if ok:
                 blk, ve = inner[0]
